@@ -5,6 +5,9 @@ import LexVerif.Proof.WriteRadixFrac
 import LexVerif.Proof.WriteRadixIntText
 import LexVerif.Proof.WriteRadixRound
 import LexVerif.Proof.WriteRadixError
+import LexVerif.Proof.WriteRadixMid
+import LexVerif.Proof.WriteRadixBig
+import LexVerif.Proof.WriteRadixSmall
 import Mathlib.Tactic.SplitIfs
 /-!
 # C07 — generic-radix float output
@@ -15,7 +18,8 @@ import Mathlib.Tactic.SplitIfs
 3. `RadixFull`: theorems about the WHOLE writer `Model/WriteRadix.lean` (hardware arithmetic modelled exactly as
    "exact result, then round to nearest even"; tied to radix.rs byte-for-byte by the `wf` correspondence):
    well-formedness (3a), termination / fuel adequacy (3b), integer exactness with the `IeeeExact` assumption discharged
-   (3c), and the exact part of the error analysis (3d). The ulp bound itself stays `C07_radix_error_bound : Prop`.
+   (3c), and the ulp clause (3d): `radix_error_bound : C07_radix_error_bound` — the digits denote a number whose nearest
+   float is within 1364 (f64) / 246 (f32) patterns of the input — with the text-level exclusion `PositionalFits`.
 -/
 namespace LexVerif.Props.C07
 open LexVerif.Spec LexVerif.Proof.RoundNE LexVerif.Props.RoundNE
@@ -119,7 +123,8 @@ section RadixFull
 open LexVerif.Model LexVerif.Model.WriteRadix LexVerif.Model.WriteRadixInt
 open LexVerif.Proof.WriteRadixF LexVerif.Proof.WriteRadixWF LexVerif.Proof.WriteRadixTerm
 open LexVerif.Proof.WriteRadixTermInt LexVerif.Proof.WriteRadixFrac LexVerif.Proof.WriteRadixInteger
-open LexVerif.Proof.WriteRadixRound LexVerif.Proof.WriteRadixError
+open LexVerif.Proof.WriteRadixRound LexVerif.Proof.WriteRadixError LexVerif.Proof.WriteRadixMid
+open LexVerif.Proof.WriteRadixBig LexVerif.Proof.WriteRadixSmall
 open LexVerif.Model.WriteInt (Res)
 
 /-- binary32 or binary64 (radix.rs runs in the float's own type) -/
@@ -411,10 +416,7 @@ ulp of a float below 64):
     | fraction · rⁿ  −  (d₁…dₙ)ᵣ · U  −  fractionₙ |  ≤  B · (1 + r + … + rⁿ⁻¹)
 
 i.e. `|fraction − 0.d₁…dₙ − fractionₙ·r⁻ⁿ| < 2^(5−p)/(r−1)` — an ABSOLUTE error below `2^-48/(r−1)` (f64),
-`2^-19/(r−1)` (f32). Missing for `C07_radix_error_bound`: (1) for floats below 1 the RELATIVE version during the leading
-zero digits (there `round(x·r)` is the new fraction and the error is `≤ 2^-p` relative per step — this is where the
-hundreds of ulps come from); (2) the exit residual `fractionₙ ≤ deltaₙ ≈ delta₀·rⁿ` and the unit added by the round-up;
-(3) integer digits of floats `≥ 2^p` (zero padding); (4) turning the value distance into a pattern distance. -/
+`2^-19/(r−1)` (f32). (Used for `1 ≤ |x| < 2^p`; below 1 the RELATIVE version `fracIter_rel` is needed.) -/
 theorem radix_fraction_error_partial (cf : Bool) {f : Fmt} (hf : StdFmt f) {r : Nat} (hr36 : r ≤ 36)
     {fuel x delta : Nat} {acc : List Nat} {out : List Nat × List Nat × Bool} (hx : x ≤ one f)
     (h : fracLoop cf f r (ofNat f r) fuel x delta acc = .ok out) :
@@ -448,16 +450,115 @@ theorem radix_fraction_digit_lt {f : Fmt} (hf : StdFmt f) {r : Nat} (hr : r ∈ 
     (hx : x < one f) : asU32 f (fmul f x (ofNat f r)) < r :=
   fracDigit_lt hf.fok (genericRadices_bounds r hr).2 (hf.radix_lt (genericRadices_bounds r hr).2) (hf.predOne hr) hx
 
-/-- digit VALUE of a byte of the scratch buffer (`0-9`, `A-Z`) -/
-def byteDigit (c : Nat) : Nat := if c < 58 then c - 48 else c - 55
-
-/-- **C07 ulp clause, full statement (NOT proved; measured by the exact judge on every output of the stream).**
+/-- **C07 ulp clause, full statement (digit level) — proved below as `radix_error_bound` from the three range theorems
+`radix_error_bound_small_partial`, `radix_error_bound_mid_partial`, `radix_error_bound_big_partial`.**
 For every finite binary32/binary64 pattern and every generic radix, the digits `ints . fracs` the writer generates
 denote a number whose nearest float is within 2048 (f64) / 256 (f32) patterns of the input. -/
 def C07_radix_error_bound : Prop :=
   ∀ (f : Fmt), StdFmt f → ∀ r ∈ genericRadices, ∀ bits < f.infBits, ∀ g, generate true f r bits = .ok g →
     ulpDist (roundNE f (ofDigits r ((g.ints ++ g.fracs).map byteDigit)) (r ^ g.fracs.length)) bits
       ≤ (if f = f64 then 2048 else 256)
+
+theorem StdFmt.mid {f : Fmt} (h : StdFmt f) : MidFmt f := by
+  rcases h with rfl | rfl; exacts [midFmt_f64, midFmt_f32]
+
+/-- **C07 ulp clause, proved for `1 ≤ |x| < 2^p`** (`2^53` / `2^24`), every generic radix, binary32 and binary64:
+the digits the writer generates denote a number whose nearest float is at most **34 patterns (ulps of the original
+float's neighbourhood)** from the input — at most 17 above, at most 34 below (the value is within 16.5 ulp of the
+input: half an ulp from `delta`, 16 ulp from the accumulated roundings; below a power of two the spacing halves).
+At most `2p` digits are generated, so `PositionalFits` holds and the text is laid out from all of them
+(`layout_keeps_all_digits`, default `max_significant_digits`). The judge's limits are 2048 / 256. -/
+theorem radix_error_bound_mid_partial {f : Fmt} (hf : StdFmt f) {r : Nat} (hr : r ∈ genericRadices) {bits : Nat}
+    (h1 : one f ≤ bits) (h2 : bits < (f.bias + f.p) * 2 ^ (f.p - 1)) {g : Gen}
+    (hg : generate true f r bits = .ok g) :
+    ulpDist (roundNE f (ofDigits r ((g.ints ++ g.fracs).map byteDigit)) (r ^ g.fracs.length)) bits ≤ 34
+    ∧ PositionalFits g := by
+  obtain ⟨h3, h36⟩ := genericRadices_bounds r hr
+  obtain ⟨e1, e2⟩ := error_mid hf.mid h3 h36 (hf.predOne hr) h1 h2 hg
+  refine ⟨e1, ?_⟩
+  unfold PositionalFits maxDigitLength
+  have : 2 * f.p ≤ 232 := by rcases hf with rfl | rfl <;> decide
+  omega
+
+/-- **C07 ulp clause, proved for `|x| ≥ 2^p`** (every finite float from `2^53` / `2^24` up to the largest), every
+generic radix: such a float is an even integer, there are no fraction digits, and the digits the integer loops produce
+(zero padding `integer /= base` — each step within a factor `1 ± 2^-p`, at most 613 / 66 steps because `3^z` cannot exceed
+the float's range — then one doubly rounded digit step, then exact steps) denote a number whose nearest float is at most
+**1340 patterns (binary64) / 246 patterns (binary32)** from the input. The judge's limits are 2048 / 256.
+(`PositionalFits` can fail here: more than 232 integer digits in positional notation are cut to zeros.) -/
+theorem radix_error_bound_big_partial {f : Fmt} (hf : StdFmt f) {r : Nat} (hr : r ∈ genericRadices) {bits : Nat}
+    (h1 : (f.bias + f.p) * 2 ^ (f.p - 1) ≤ bits) (h2 : bits < f.infBits) {g : Gen}
+    (hg : generate true f r bits = .ok g) :
+    ulpDist (roundNE f (ofDigits r ((g.ints ++ g.fracs).map byteDigit)) (r ^ g.fracs.length)) bits
+      ≤ (if f = f64 then 1340 else 246) := by
+  obtain ⟨h3, h36⟩ := genericRadices_bounds r hr
+  rcases hf with rfl | rfl
+  · exact error_big bigFmt_f64 h3 h36 h1 h2 hg
+  · exact error_big bigFmt_f32 h3 h36 h1 h2 hg
+
+/-- **C07 ulp clause, proved for `0 ≤ |x| < 1`** (zero, subnormals and every float below 1), every generic radix: the
+float is its own fraction; every `round(fraction · base)` has a RELATIVE error `≤ 2^-p` (exact for subnormal results), the
+telescoped error after `N` digits is `≤ (N + 1)` ulps of the input, the exit residual `≤ 2` ulps, and `N ≤ 679` / `95`
+because `delta` grows by a factor `≥ 3(1 − 2^-p)` per step and the loop ends once `delta ≥ 1`. The nearest float of the
+digits is at most **1364 patterns (binary64) / 196 patterns (binary32)** from the input (limits 2048 / 256). -/
+theorem radix_error_bound_small_partial {f : Fmt} (hf : StdFmt f) {r : Nat} (hr : r ∈ genericRadices) {bits : Nat}
+    (h1 : bits < one f) {g : Gen} (hg : generate true f r bits = .ok g) :
+    ulpDist (roundNE f (ofDigits r ((g.ints ++ g.fracs).map byteDigit)) (r ^ g.fracs.length)) bits
+      ≤ (if f = f64 then 1364 else 196) := by
+  obtain ⟨h3, h36⟩ := genericRadices_bounds r hr
+  rcases hf with rfl | rfl
+  · exact error_small smallFmt_f64 h3 h36 (predOne_table_f64 r hr) h1 hg
+  · exact error_small smallFmt_f32 h3 h36 (predOne_table_f32 r hr) h1 hg
+
+/-- the range of `radix_error_bound_mid_partial` in bit patterns: `[1.0, 2^p)` -/
+example : one f64 = 0x3ff0000000000000 ∧ (f64.bias + f64.p) * 2 ^ (f64.p - 1) = 0x4340000000000000
+    ∧ one f32 = 0x3f800000 ∧ (f32.bias + f32.p) * 2 ^ (f32.p - 1) = 0x4b800000 := by decide +kernel
+
+/-- non-vacuity: binary32 10.7 in radix 3 -/
+example : ∃ g, generate true f32 3 0x412b3333 = .ok g ∧
+    ulpDist (roundNE f32 (ofDigits 3 ((g.ints ++ g.fracs).map byteDigit)) (3 ^ g.fracs.length)) 0x412b3333 ≤ 34 := by
+  obtain ⟨g, hg, _⟩ := radix_generate_total true (Or.inr rfl : StdFmt f32) (r := 3) (by decide) (by decide)
+    (bits := 0x412b3333) (by decide)
+  exact ⟨g, hg, (radix_error_bound_mid_partial (Or.inr rfl) (by decide) (by decide +kernel) (by decide +kernel) hg).1⟩
+
+/-- **the exclusion for the text** (finding C07-generic-radix-positional-truncation): the layout only looks at the
+first 232 bytes of the generated digits. `PositionalFits g` — integer and fraction digits together are at most 232 —
+is the exact condition under which (default `max_significant_digits`) the text is laid out from ALL generated digits:
+`layoutText = layoutAll`. -/
+theorem radix_layout_keeps_all_digits (fmt : Format) (feats : Features) (o : WOpts) (ho : o.maxDigits = none)
+    (r : Nat) (g : Gen) (hfit : PositionalFits g) : layoutText fmt feats o r g = layoutAll fmt feats o g :=
+  layout_keeps_all_digits fmt feats o ho r g hfit
+
+/-- decided witness of the excluded case: 232 fraction zeros followed by `1` (a value `3^-233`; such buffers arise,
+e.g. corpus op `wf f64 6060…0c e05fa782cd98f39 - - 1 -700 …` replayed through the correspondence) do not fit, and the
+positional text is `"0."` — the only significant digit is gone, while the layout of all digits keeps it -/
+theorem positional_truncation_witness :
+    let g : Gen := ⟨[48], List.replicate 232 48 ++ [49], []⟩
+    ¬ PositionalFits g
+    ∧ (layoutText fmt3 featsRadix { negBreak := some (-700) } 3 g).bind (fun t => .ok t.text) = .ok [48, 46]
+    ∧ (layoutAll fmt3 featsRadix { negBreak := some (-700) } g).bind (fun t => .ok t.text)
+        = .ok ([48, 46] ++ List.replicate 232 48 ++ [49]) := by
+  refine ⟨by decide +kernel, by decide +kernel, by decide +kernel⟩
+
+/-- **C07 ulp clause — the full statement is a theorem** (digit level): the three ranges `[0,1)`, `[1,2^p)`, `[2^p,∞)`
+cover every finite pattern; proved constants 1364 (binary64) and 246 (binary32), below the judge's 2048 / 256. What the
+TEXT denotes equals what the digits denote when the layout keeps all digits: default `max_significant_digits` and
+`PositionalFits` (`radix_layout_keeps_all_digits`; always true for `1 ≤ |x| < 2^p`); the excluded case is the recorded
+finding C07-generic-radix-positional-truncation (`positional_truncation_witness`). -/
+theorem radix_error_bound : C07_radix_error_bound := by
+  intro f hf r hr bits hb g hg
+  by_cases h1 : bits < one f
+  · have := radix_error_bound_small_partial hf hr h1 hg
+    rcases hf with rfl | rfl
+    · simp only [if_true] at this ⊢; omega
+    · rw [if_neg (by decide)] at this ⊢; omega
+  · by_cases h2 : bits < (f.bias + f.p) * 2 ^ (f.p - 1)
+    · have := (radix_error_bound_mid_partial hf hr (Nat.le_of_not_lt h1) h2 hg).1
+      split <;> omega
+    · have := radix_error_bound_big_partial hf hr (Nat.le_of_not_lt h2) hb hg
+      rcases hf with rfl | rfl
+      · simp only [if_true] at this ⊢; omega
+      · rw [if_neg (by decide)] at this ⊢; omega
 
 end RadixFull
 
